@@ -1,0 +1,11 @@
+//go:build verif
+
+package builder
+
+// Verification hook (build tag "verif" only): expose the builder-side hash
+// bit slicing helper, whose deep offsets are unreachable through real names.
+
+// VerifHashBitsSlice returns hashBits(b).Slice(offset, width).
+func VerifHashBitsSlice(b []byte, offset, width int) (int, error) {
+	return hashBits(b).Slice(offset, width)
+}
